@@ -258,6 +258,44 @@ func init() {
 			}
 		}})
 
+	register(&Rule{ID: "C16.notbonddenom", Props: []string{"C01", "C02", "C11", "C17"}, Floor: 1,
+		Doc: "the staking bond denom cannot be whitelisted as an alliance asset",
+		Run: func(e *Engine, r *RuleRun) {
+			// CompleteUnbondings burns the module account's whole bond-denom balance every block (virtual staking tokens);
+			// with an alliance on the bond denom that balance is the delegators' principal and their pending unbondings.
+			fn := r.Need("keeper.MsgServer.CreateAlliance")
+			if fn == nil {
+				return
+			}
+			fk, fa := FuncKey(fn), e.FA(fn)
+			c := r.One(fn, "persisting call", "keeper.Keeper.SetAsset")
+			if c == nil {
+				return
+			}
+			ok := fa.HasGuard(c, func(g Guard) bool {
+				if g.Cond.Op != "binop" || (g.Cond.Name != "==" && g.Cond.Name != "!=") {
+					return false
+				}
+				// true edge of !=, false edge of ==
+				if (g.Cond.Name == "==") == g.Pos {
+					return false
+				}
+				a, b := g.Cond.Args[0], g.Cond.Args[1]
+				isDenom := func(t *Term) bool { return strings.HasSuffix(t.String(), "$msg).Denom") || strings.HasSuffix(t.String(), "$msg.Denom") }
+				isBond := func(t *Term) bool {
+					found := false
+					t.Walk(func(x *Term) {
+						if x.IsCall("types.StakingKeeper.BondDenom") {
+							found = true
+						}
+					})
+					return found
+				}
+				return (isDenom(a) && isBond(b)) || (isDenom(b) && isBond(a))
+			})
+			r.Check(ok, fk, "creation rejects the staking bond denom", "SetAsset dominated by msg.Denom != stakingKeeper.BondDenom()", "MsgCreateAlliance accepts the staking bond denom: the end blocker burns every bond-denom coin the module account holds as left-over virtual staking tokens, i.e. the delegators' principal and pending unbondings; custody falls short, the matured unbonding cannot be paid and the end blocker fails", r.P(c))
+		}})
+
 	register(&Rule{ID: "C16.immutable", Props: []string{"C16"}, Floor: 3,
 		Doc: "nothing in the call tree of an asset update writes the fields an update must preserve, moves custody or rewrites the module parameters",
 		Run: func(e *Engine, r *RuleRun) {
